@@ -77,10 +77,22 @@ func vc11pPool() []string {
 			vc11pZero, vc11pOnes,
 			"bad.example.com", twin, "adult.example.net", "scam.example.org", "phish.co.uk", "new.example.io",
 			"a.bad.example.com", "x.test",
+
+			// Legal DNS names that are not strict host names, a digits-only
+			// and a 63-octet label: the unchanged Reset lists them all.
+			"_dmarc.bad.example.com", "secure_login.example.net", "cdn-.example.org", "-x.example.io",
+			"123.example.com", strings.Repeat("l", 63) + ".example.com",
 		}
 	})
 
 	return vc11pPoolVal
+}
+
+// vc11pOdd reports whether name is a legal DNS name that is not a strict host
+// name: an underscore, or a label starting or ending with a hyphen.
+func vc11pOdd(name string) bool {
+	return strings.Contains(name, "_") || strings.Contains(name, "-.") || strings.Contains(name, ".-") ||
+		strings.HasPrefix(name, "-")
 }
 
 // vc11pGenList draws the listed subset of the pool and a list text for it
@@ -224,13 +236,14 @@ func vc11pKeys(m map[string]bool) (keys []string) {
 func TestVerifC11Preservice(t *testing.T) {
 	st := vstat.New("C11", "preservice.txt",
 		"rapid histories through preservice.Middleware (one shared production cloner and constructor, every response disposed of after judging) over a real hashprefix.Matcher with two storages (general and adult "+
-			"suffix): lists over a 10-name pool containing a prefix twin and names whose digests start with 0000 and ffff, questions (TXT and other types; 1-5 prefix labels "+
+			"suffix): lists over a 16-name pool (incl. underscore, edge-hyphen, digits-only and 63-octet labels) containing a prefix twin and names whose digests start with 0000 and ffff, questions (TXT and other types; 1-5 prefix labels "+
 			"pool/legacy/other/malformed; hosts under and outside the suffixes; mixed-case question names), storage resets; "+
 			"non-trivial = TXT query under a suffix with a non-empty expected answer; distinct by (suffix, prefixes, expected)",
 		"txt-answer-nonempty", "txt-answer-empty", "txt-answer-two-names-one-prefix", "txt-legacy8", "txt-refused",
 		"txt-outside-suffix-forwarded", "non-txt-forwarded", "txt-answer-after-reset",
 		"txt-repeated-prefix-with-zero-hash-listed", "txt-no-match-after-disposed-match",
-		"txt-no-match-after-disposed-other-txt", "list-has-line-of-255-or-more")
+		"txt-no-match-after-disposed-other-txt", "list-has-line-of-255-or-more",
+		"listed-name-not-a-strict-hostname-queried")
 	st.Finish(t)
 
 	// One production cloner and constructor for the whole stack, as in cmd;
@@ -467,6 +480,14 @@ func TestVerifC11Preservice(t *testing.T) {
 					if sum := vc11pSum(name); prefs[sum[:4]] {
 						want[sum] = true
 						byPref[sum[:4]]++
+					}
+				}
+
+				for name := range listed[which] {
+					if vc11pOdd(name) && prefs[vc11pSum(name)[:4]] {
+						classes = append(classes, "listed-name-not-a-strict-hostname-queried")
+
+						break
 					}
 				}
 
